@@ -20,9 +20,9 @@ func init() {
 	register(&obs.Monitor{
 		ID:    "C06",
 		Level: "exploration",
-		Rule: "one call per case on a linear.Seq or linear.QSeq (DNA = complementing, Protein = reverse only; length 0..60, offset -20..20, linear/circular): Truncate with start/end over [offset-3,end+3]^2 in both orders (1 in 6 with MinInt64/MaxInt64-side coordinates, 1 in 3 into a reused circular destination), Join at either end, " +
-			"Stitch and Compose with 0..6 features (overlapping, nested, abutting, unsorted, partly or wholly outside, 1 set in 6 with MinInt64/MaxInt64-side coordinates; every orientation mix), dst==src and dst!=src, Trim on a dyadic-valued QualityFeature (exact) and on real QSeq qualities (1e-9). " +
-			"Oracle: clean-room positional model; source unchanged (conformation included) and storage-independent from the result. Non-trivial = non-empty sequence and (>=2 features or a wrapping/out-of-range truncation or a join or a trim); distinct = op+parameters+letters",
+		Rule: "one call per case on a linear.Seq or linear.QSeq (DNA, RNA, DNAredundant = complementing, Protein = reverse only; length 0..60, offset -20..20, linear/circular/undefined conformation, any strand): Truncate with start/end over [offset-3,end+3]^2 in both orders (1 in 6 with MinInt64/MaxInt64-side coordinates, 1 in 3 into a reused circular destination, others into one of undefined conformation), Join at either end, " +
+			"Stitch and Compose with 0..6 features (overlapping, nested, abutting, unsorted, partly or wholly outside, 1 set in 6 with MinInt64/MaxInt64-side coordinates; every orientation mix, 1 feature in 3 of a type without an Orientation method = forward), dst==src and dst!=src, Trim on a dyadic-valued QualityFeature (exact) and on real QSeq qualities (1e-9). " +
+			"Oracle: clean-room positional model; source unchanged (conformation, strand, name, description, alphabet included; after a refused call too) and storage-independent from the result. Non-trivial = non-empty sequence and (>=2 features or a wrapping/out-of-range truncation or a join or a trim); distinct = op+parameters+letters",
 		Batches: func(t string) int {
 			if t == "thorough" {
 				return 16
@@ -36,7 +36,8 @@ func init() {
 			return map[string]int64{"truncate_calls": 1500, "truncate_wraps": 100, "truncate_errors_expected": 300, "join_calls": 1000, "stitch_calls": 1500, "compose_calls": 1500,
 				"compose_two_or_more_reverse": 200, "trim_calls": 1500, "aliasing_probes": 3000}
 		},
-		Assumptions: []string{"Compose is never given a feature wholly outside the sequence (the quantifier says partly outside)", "Join's resulting offset is not judged", "features have End >= Start"},
+		Assumptions: []string{"Compose is never given a feature wholly outside the sequence (the quantifier says partly outside)", "Join's resulting offset is not judged", "features have End >= Start",
+			"Truncate with start > end of a source whose conformation is undefined may be refused or wrap: the statement names circular sources only", "what a refused in-place call leaves in the sequence is not judged"},
 	})
 }
 
@@ -52,6 +53,23 @@ func (f *c06f) Name() string                  { return "f" }
 func (f *c06f) Description() string           { return "" }
 func (f *c06f) Location() feat.Feature        { return nil }
 func (f *c06f) Orientation() feat.Orientation { return f.Ori }
+
+// c06p is a feature that carries no orientation at all (feat.Feature does not ask for the method): Compose takes it forward.
+type c06p struct{ S, E int }
+
+func (f *c06p) Start() int             { return f.S }
+func (f *c06p) End() int               { return f.E }
+func (f *c06p) Len() int               { return f.E - f.S }
+func (f *c06p) Name() string           { return "p" }
+func (f *c06p) Description() string    { return "" }
+func (f *c06p) Location() feat.Feature { return nil }
+
+// c06feat is the model's record of one feature; Plain ones are handed over as *c06p, the others as *c06f.
+type c06feat struct {
+	S, E  int
+	Ori   feat.Orientation
+	Plain bool
+}
 
 type c06set []feat.Feature
 
@@ -74,21 +92,37 @@ type c06seq struct {
 	L      string
 	Q      []byte
 	Off    int
-	Circ   bool
-	Alpha  string
+	Conf   string // "linear", "circular" or "undefined"
+	Alpha  string // "DNA", "Protein", "RNA" or "DNAredundant"
 	IsQ    bool
 	Strand int8
+	Desc   string
+}
+
+func (m c06seq) conformation() feat.Conformation {
+	switch m.Conf {
+	case "circular":
+		return feat.Circular
+	case "undefined":
+		return feat.UndefinedConformation
+	}
+	return feat.Linear
+}
+
+func (m c06seq) alphabet() alphabet.Alphabet {
+	switch m.Alpha {
+	case "Protein":
+		return alphabet.Protein
+	case "RNA":
+		return alphabet.RNA
+	case "DNAredundant":
+		return alphabet.DNAredundant
+	}
+	return alphabet.DNA
 }
 
 func (m c06seq) build() seq.Sequence {
-	al := alphabet.Alphabet(alphabet.DNA)
-	if m.Alpha == "Protein" {
-		al = alphabet.Protein
-	}
-	conf := feat.Linear
-	if m.Circ {
-		conf = feat.Circular
-	}
+	al, conf := m.alphabet(), m.conformation()
 	// slices with room to spare (as AppendLetters leaves them): an append onto such a slice writes into its owner's array
 	spare := 0
 	if len(m.L)%3 == 1 {
@@ -104,23 +138,38 @@ func (m c06seq) build() seq.Sequence {
 		}
 		s := linear.NewQSeq("s", nil, al, alphabet.Sanger)
 		s.Seq = ql
-		s.Offset, s.Conform = m.Off, conf
+		s.Offset, s.Conform, s.Strand, s.Desc = m.Off, conf, seq.Strand(m.Strand), m.Desc
 		return s
 	}
 	ls := make([]alphabet.Letter, len(m.L), len(m.L)+spare)
 	copy(ls, alphabet.BytesToLetters([]byte(m.L)))
 	s := linear.NewSeq("s", nil, al)
 	s.Seq = ls // the constructor copies its argument; the roomy slice goes into the exported field
-	s.Offset, s.Conform = m.Off, conf
+	s.Offset, s.Conform, s.Strand, s.Desc = m.Off, conf, seq.Strand(m.Strand), m.Desc
 	return s
 }
 
 func c06Gen(rng *rand.Rand) c06seq {
-	m := c06seq{Off: rng.Intn(41) - 20, Circ: rng.Intn(3) == 0, IsQ: rng.Intn(2) == 0, Alpha: "DNA"}
+	m := c06seq{Off: rng.Intn(41) - 20, Conf: "linear", IsQ: rng.Intn(2) == 0, Alpha: "DNA"}
+	switch rng.Intn(9) {
+	case 0, 1, 2:
+		m.Conf = "circular"
+	case 3:
+		m.Conf = "undefined" // a legal third value; the constructors never give it, a caller can
+	}
+	m.Strand = int8(rng.Intn(3) - 1)
+	m.Desc = []string{"", "d"}[rng.Intn(2)]
 	letters := "acgtnACGTN-"
-	if rng.Intn(3) == 0 {
+	switch rng.Intn(6) {
+	case 0, 1:
 		m.Alpha = "Protein"
 		letters = "abcdefghiklmnpqrstvwxyz*-ACDEFG"
+	case 2:
+		m.Alpha = "RNA"
+		letters = "acgunACGUN-"
+	case 3:
+		m.Alpha = "DNAredundant"
+		letters = "acmgrsvtwyhkdbnACMGRSVTWYHKDBN-"
 	}
 	n := rng.Intn(61)
 	if rng.Intn(10) == 0 {
@@ -144,12 +193,55 @@ func c06Obs(s seq.Sequence, isQ bool) (string, []byte, int) {
 	return rec.Letters, rec.Quals, s.Start()
 }
 
+// c06Comp is the model's complement: Watson-Crick and IUPAC pairs written out here (not read from the library's tables),
+// a with t for the DNA alphabets and with u for RNA, case kept; protein letters stay.
 func c06Comp(alpha string, l byte) byte {
-	if alpha != "DNA" {
+	from, to := "acgtmkrybvdhswnx-", "tgcakmyrvbhdswnx-"
+	switch alpha {
+	case "Protein":
 		return l
+	case "RNA":
+		from, to = "acgunx-", "ugcanx-"
 	}
-	c, _ := alphabet.DNA.(alphabet.Complementor).Complement(alphabet.Letter(l))
-	return byte(c)
+	for i := 0; i < len(from); i++ {
+		switch l {
+		case from[i]:
+			return to[i]
+		case from[i] - 'a' + 'A':
+			if from[i] != '-' {
+				return to[i] - 'a' + 'A'
+			}
+		}
+	}
+	return l
+}
+
+// c06Same compares everything a caller can see of s with the model it was built from: letters, qualities, offset,
+// conformation (by value), strand, name, description and alphabet. It returns "" or what differs.
+func c06Same(s seq.Sequence, m c06seq) string {
+	l, q, off := c06Obs(s, m.IsQ)
+	var strand seq.Strand
+	switch v := s.(type) {
+	case *linear.Seq:
+		strand = v.Strand
+	case *linear.QSeq:
+		strand = v.Strand
+	}
+	switch {
+	case l != m.L || off != m.Off:
+		return fmt.Sprintf("%q at %d, was %q at %d", l, off, m.L, m.Off)
+	case m.IsQ && string(q) != string(m.Q):
+		return fmt.Sprintf("qualities %v, were %v", q, m.Q)
+	case s.Conformation() != m.conformation():
+		return fmt.Sprintf("conformation %v, was %v", s.Conformation(), m.conformation())
+	case strand != seq.Strand(m.Strand):
+		return fmt.Sprintf("strand %v, was %v", strand, seq.Strand(m.Strand))
+	case s.Name() != "s" || s.Description() != m.Desc:
+		return fmt.Sprintf("name/description %q/%q, were %q/%q", s.Name(), s.Description(), "s", m.Desc)
+	case s.Alphabet() != m.alphabet():
+		return fmt.Sprintf("alphabet %v, was %v", s.Alphabet(), m.alphabet())
+	}
+	return ""
 }
 
 // scribble overwrites every position of s with a marker letter.
@@ -200,8 +292,10 @@ func c06Case(r *obs.Run, i int) {
 	op := []string{"truncate", "truncate", "join", "stitch", "stitch", "compose", "compose", "trim", "trim"}[rng.Intn(9)]
 	w["op"] = op
 	sameDst := rng.Intn(3) == 0
+	dstUndefined := false // the destination's conformation is undefined when the call is made
 	mkDst := func() seq.Sequence {
 		if sameDst {
+			dstUndefined = m.Conf == "undefined"
 			return src
 		}
 		d := src.New()
@@ -215,6 +309,7 @@ func c06Case(r *obs.Run, i int) {
 				d = &c
 			}
 			r.Count("destinations_viewing_the_source", 1)
+			dstUndefined = m.Conf == "undefined"
 			return d
 		}
 		if rng.Intn(2) == 0 { // a destination that already holds something
@@ -225,6 +320,12 @@ func c06Case(r *obs.Run, i int) {
 			if cs, ok := d.(seq.ConformationSetter); ok {
 				cs.SetConformation(feat.Circular)
 				r.Count("truncate_into_circular_destination", 1)
+			}
+		} else if op != "join" && rng.Intn(4) == 0 { // or one whose conformation was never defined, for Stitch and Compose too
+			if cs, ok := d.(seq.ConformationSetter); ok {
+				cs.SetConformation(feat.UndefinedConformation)
+				dstUndefined = true
+				r.Count("destinations_with_undefined_conformation", 1)
 			}
 		}
 		return d
@@ -244,20 +345,18 @@ func c06Case(r *obs.Run, i int) {
 			fail(op+"-start", fmt.Sprintf("%s: result starts at %d, want %d", op, gs, wantStart))
 			return false
 		}
-		if checkStart && dst.Conformation() != feat.Linear {
-			fail(op+"-conformation", fmt.Sprintf("%s: result is not linear", op))
+		// Truncate's result is linear whatever the destination was; Stitch and Compose are documented to make a circular
+		// sequence linear, so a destination that went in undefined may come out undefined
+		if c := dst.Conformation(); checkStart && c != feat.Linear && !(op != "truncate" && dstUndefined && c == feat.UndefinedConformation) {
+			fail(op+"-conformation", fmt.Sprintf("%s: result is %v, not linear", op, c))
 			return false
 		}
 		if !sameDst {
-			sl, sq, ss := c06Obs(src, m.IsQ)
-			if sl != m.L || (m.IsQ && string(sq) != string(m.Q)) || ss != m.Off {
-				fail(op+"-source-changed", fmt.Sprintf("%s: the source changed: %q at %d, was %q at %d", op, sl, ss, m.L, m.Off))
+			if d := c06Same(src, m); d != "" {
+				fail(op+"-source-changed", fmt.Sprintf("%s: the source changed: %s", op, d))
 				return false
 			}
-			if (src.Conformation() == feat.Circular) != m.Circ {
-				fail(op+"-source-changed", fmt.Sprintf("%s: the source's conformation changed to %v (circular before: %v)", op, src.Conformation(), m.Circ))
-				return false
-			}
+			var sl string
 			// storage independence, both directions
 			r.Count("aliasing_probes", 1)
 			c06Scribble(src, '?')
@@ -286,7 +385,21 @@ func c06Case(r *obs.Run, i int) {
 		}
 		return true
 	}
-	note := func(sig string, nontrivial bool) { r.Note(op+"/"+sig+"/"+m.L+fmt.Sprint(m.Off, m.Circ, m.IsQ, sameDst), nontrivial && len(m.L) > 0) }
+	note := func(sig string, nontrivial bool) {
+		r.Note(op+"/"+sig+"/"+m.L+fmt.Sprint(m.Off, m.Conf, m.IsQ, sameDst), nontrivial && len(m.L) > 0)
+	}
+	// refused compares the source with its model after a call that returned an error into another destination.
+	refused := func() bool {
+		if sameDst {
+			return true // what a refused in-place call leaves behind is not part of the statement
+		}
+		r.Count("sources_compared_after_a_refused_call", 1)
+		if d := c06Same(src, m); d != "" {
+			fail(op+"-source-changed", fmt.Sprintf("%s: the call was refused and the source changed: %s", op, d))
+			return false
+		}
+		return true
+	}
 	sub := func(a, b int) (string, []byte) { // model positions [a,b)
 		l := m.L[a-m.Off : b-m.Off]
 		var q []byte
@@ -321,11 +434,26 @@ func c06Case(r *obs.Run, i int) {
 		dst := mkDst()
 		err := sequtils.Truncate(dst.(sequtils.Sliceable), src.(sequtils.Sliceable), st, en)
 		inside := st >= m.Off && st <= end && en >= m.Off && en <= end
+		if inside && st > en && m.Conf == "undefined" {
+			// the statement wraps "for a circular source" and says nothing of a source that is neither: refusing and wrapping are both taken
+			r.Count("truncate_start_after_end_undefined_source", 1)
+			if err != nil {
+				r.Count("truncate_start_after_end_undefined_source_refused", 1)
+				if !refused() {
+					return
+				}
+				note(fmt.Sprint("err", st, en), true)
+				break
+			}
+		}
 		switch {
-		case !inside || (st > en && !m.Circ):
+		case !inside || (st > en && m.Conf == "linear"):
 			r.Count("truncate_errors_expected", 1)
 			if err == nil {
-				fail("truncate-no-error", fmt.Sprintf("Truncate(%d,%d) of [%d,%d) circular=%v returned no error", st, en, m.Off, end, m.Circ))
+				fail("truncate-no-error", fmt.Sprintf("Truncate(%d,%d) of [%d,%d) %s returned no error", st, en, m.Off, end, m.Conf))
+				return
+			}
+			if !refused() {
 				return
 			}
 			note(fmt.Sprint("err", st, en), true)
@@ -355,19 +483,12 @@ func c06Case(r *obs.Run, i int) {
 	case "join":
 		o := c06Gen(rng)
 		o.Alpha, o.IsQ = m.Alpha, m.IsQ
-		if m.Alpha == "DNA" {
-			b := []byte(o.L)
-			for k := range b {
-				b[k] = "acgtn"[rng.Intn(5)]
-			}
-			o.L = string(b)
-		} else {
-			b := []byte(o.L)
-			for k := range b {
-				b[k] = "klmnpq"[rng.Intn(6)]
-			}
-			o.L = string(b)
+		ol := map[string]string{"DNA": "acgtn", "Protein": "klmnpq", "RNA": "acgun", "DNAredundant": "acgtry"}[m.Alpha]
+		b := []byte(o.L)
+		for k := range b {
+			b[k] = ol[rng.Intn(len(ol))]
 		}
+		o.L = string(b)
 		if o.IsQ && o.Q == nil {
 			o.Q = make([]byte, len(o.L))
 		}
@@ -381,12 +502,21 @@ func c06Case(r *obs.Run, i int) {
 		other := o.build()
 		dst := src // dst is the receiver that grows; the other sequence is the source
 		err := sequtils.Join(dst.(sequtils.Joinable), other.(sequtils.Joinable), where)
-		if m.Circ || o.Circ {
+		if m.Conf == "circular" || o.Conf == "circular" {
 			if err == nil {
 				fail("join-no-error", "Join involving a circular sequence returned no error")
+				return
+			}
+			r.Count("sources_compared_after_a_refused_call", 1)
+			if d := c06Same(other, o); d != "" {
+				fail("join-source-changed", "the Join was refused and its source changed: "+d)
+				return
 			}
 			note("circ", true)
 			return
+		}
+		if m.Conf == "undefined" || o.Conf == "undefined" { // neither is circular: the concatenation is due
+			r.Count("join_with_undefined_conformation", 1)
 		}
 		if err != nil {
 			fail("join-error", "Join returned "+err.Error())
@@ -401,14 +531,13 @@ func c06Case(r *obs.Run, i int) {
 			fail("join-letters", fmt.Sprintf("Join at %v: %q, want %q", w["where"], gl, wl))
 			return
 		}
-		ol, oq, oo := c06Obs(other, o.IsQ)
-		if ol != o.L || (o.IsQ && string(oq) != string(o.Q)) || oo != o.Off {
-			fail("join-source-changed", fmt.Sprintf("Join changed its source: %q at %d, was %q at %d", ol, oo, o.L, o.Off))
+		if d := c06Same(other, o); d != "" {
+			fail("join-source-changed", "Join changed its source: "+d)
 			return
 		}
 		r.Count("aliasing_probes", 1)
 		c06Scribble(dst, '!')
-		if ol, _, _ = c06Obs(other, o.IsQ); ol != o.L {
+		if ol, _, _ := c06Obs(other, o.IsQ); ol != o.L {
 			fail("join-shared-storage", "overwriting the joined result changed the source")
 			return
 		}
@@ -423,9 +552,8 @@ func c06Case(r *obs.Run, i int) {
 		note(fmt.Sprint(where, o.L), true)
 	case "stitch", "compose":
 		nf := rng.Intn(7)
-		var fs c06set
-		var fl []c06f
-		nrev := 0
+		var fl []c06feat
+		nrev, nplain := 0, 0
 		for k := 0; k < nf; k++ {
 			var s, e int
 			for tries := 0; ; tries++ {
@@ -443,13 +571,15 @@ func c06Case(r *obs.Run, i int) {
 				// features wholly outside the sequence contribute nothing, to Stitch and to Compose alike
 				break
 			}
-			f := c06f{s, e, feat.Orientation(rng.Intn(3) - 1)}
+			f := c06feat{S: s, E: e, Ori: feat.Orientation(rng.Intn(3) - 1)}
+			if rng.Intn(3) == 0 { // a feature type without an Orientation method: forward
+				f.Ori, f.Plain = feat.NotOriented, true
+				nplain++
+			}
 			if f.Ori == feat.Reverse {
 				nrev++
 			}
 			fl = append(fl, f)
-			ff := f
-			fs = append(fs, &ff)
 		}
 		if nf > 0 && rng.Intn(6) == 0 { // "from the beginning of time to 5", "from 2 onwards": extreme coordinates on the outer side
 			k := rng.Intn(nf)
@@ -468,8 +598,21 @@ func c06Case(r *obs.Run, i int) {
 					fl[k].S, fl[k].E = math.MaxInt64-45-rng.Intn(5), math.MaxInt64-rng.Intn(40)
 				}
 			}
-			*(fs[k].(*c06f)) = fl[k]
 			r.Count("feature_sets_with_extreme_coordinates", 1)
+		}
+		fs := make(c06set, nf)
+		for k, f := range fl {
+			if f.Plain {
+				fs[k] = &c06p{f.S, f.E}
+			} else {
+				fs[k] = &c06f{f.S, f.E, f.Ori}
+			}
+		}
+		if nplain > 0 {
+			r.Count(op+"_with_features_that_have_no_orientation", 1)
+		}
+		if op == "compose" && nplain > 0 && nrev > 0 {
+			r.Count("compose_mixing_reverse_and_unoriented_features", 1)
 		}
 		w["features"] = fl
 		dst := mkDst()
@@ -492,6 +635,9 @@ func c06Case(r *obs.Run, i int) {
 			}
 		} else {
 			r.Count("compose_calls", 1)
+			if nrev >= 1 && m.Alpha != "DNA" && m.Alpha != "Protein" {
+				r.Count("compose_reverse_"+m.Alpha, 1)
+			}
 			if nrev >= 2 {
 				r.Count("compose_two_or_more_reverse", 1)
 			}
